@@ -111,13 +111,20 @@ func recC15(c *ctx) {
 		v.beta(&G)
 		return v.t
 	}
+	voff := 0
+	if c.cfg != "default" && c.tier == "thorough" {
+		voff = 2
+	}
 	for i := 0; i < n; i++ {
 		seed := r.Bytes(32)
 		sk := ed25519.NewKeyFromSeed(seed)
 		pk := []byte(sk[32:])
 		alpha := r.Bytes([]int{0, 1, 20, 100}[r.Intn(4)])
-		v10 := i%2 == 1
-		addRand := i%4 >= 2
+		// the four proving entry points rotate; the rotation starts elsewhere on the second configuration so that a
+		// quick run (two proofs per configuration) still goes through all four
+		variant := (i + voff) % 4
+		v10 := variant%2 == 1
+		addRand := variant >= 2
 		z := r.Bytes(32)
 		// the key and alpha are handed over as sub-slices of larger poisoned buffers: a callee must not write past them
 		skBuf := append(append([]byte(nil), sk...), bytes.Repeat([]byte{0xa7}, 96)...)
@@ -166,6 +173,10 @@ func recC15(c *ctx) {
 		// ---- verification of the honest proof, and under the other challenge format
 		verify("honest", v10, pk, pi, alpha, vtables(v10, pk, pi, alpha))
 		verify("crossversion", !v10, pk, pi, alpha, vtables(!v10, pk, pi, alpha))
+		// in a quick run the third and fourth proof (the added-randomness entry points) get the honest verifications only
+		if c.tier != "thorough" && i >= 2 {
+			continue
+		}
 		// ---- altered proofs
 		flip := append([]byte(nil), pi...)
 		bit := r.Intn(640)
